@@ -72,7 +72,8 @@ def main():
         },
         'engines': [
             {'name': 'afffacts', 'path': '/verif/driver', 'serves_properties': sorted(claims), 'kind_free_text': 'rustc_private driver dumping un-optimised MIR + type facts as JSON (nothing is executed)'},
-            {'name': 'affcheck', 'path': '/verif/affcheck', 'serves_properties': sorted(claims), 'kind_free_text': 'Python rule engine over the MIR facts: CFG/dominators/guards, reaching definitions, provenance, effect contracts, kernel normal forms'},
+            {'name': 'affcheck', 'path': '/verif/affcheck', 'serves_properties': sorted(claims), 'kind_free_text': 'Python rule engine over the MIR facts: CFG/dominators/guards, reaching definitions, provenance, effect contracts, kernel normal forms, abstract interpretation over exhaustive case partitions (absint.py, caseinterp.py)'},
+            {'name': 'fixture_macros', 'path': '/verif/fixture_macros', 'serves_properties': ['C14', 'C16'], 'kind_free_text': 'crate expanding every arm of the exported macros once; type-checked against the analysed tree through the fact driver (never run) so that the arms can be read from MIR'},
         ],
         'checks': checks,
         'notes': 'Static analysis only; see DESIGN.md. Known findings in /verif/known_findings.txt.',
